@@ -294,7 +294,7 @@ def gen_case(prop, tier, seed, stream, k):
         if stream == "medium":
             cfg["entry"] = rnd.choice(["exact-primal", "exact-dual", "exact-dual", "opt_dual"])
             cfg["maxit"] = None
-        if stream == "knife" and rnd.random() < 0.6:
+        if stream in ("knife", "knife-x") and rnd.random() < 0.6:
             cfg["entry"] = rnd.choice(["exact-primal", "exact-dual"])
             cfg["maxit"] = None
         if stream == "big":
@@ -349,13 +349,14 @@ def plan(prop, tier):
         n = 90 if q else 5000
         P = [(f, n) for f in ["small-rand", "small-int", "degenerate", "illcond", "thin", "planted-opt", "tiny"]]
         P.append(("knife", 450 if q else 12000))
+        P.append(("knife-x", 40 if q else 1500))
         P.append(("medium", 8 if q else 300))
         P.append(("big", 24 if q else 800))
         return P
     if prop == "C02":
         n = 70 if q else 3000
         return [("planted-inf", 3 * n), ("thin", 2 * n), ("small-rand", n), ("small-int", n), ("degenerate", n), ("tiny", n), ("illcond", n),
-                ("knife", 4 * n), ("knife-far", n)]
+                ("knife", 4 * n), ("knife-far", n), ("knife-x", n), ("planted-inf-x", n // 2)]
     if prop == "C03":
         n = 150 if q else 4000
         P = [(f, n) for f in ["small-rand", "small-int", "degenerate", "illcond", "thin", "planted-opt", "planted-inf"]]
